@@ -69,6 +69,7 @@ structure SubRec where
   pendingReq : Option Nat := none
   current : Option Nat := none       -- currentSubID
   waiter : Bool := true              -- newSubResponse != nil
+  requested : Bool := false          -- an eth_subscribe has been issued for it
 deriving Repr, DecidableEq, Inhabited
 
 structure St where
@@ -110,19 +111,40 @@ inductive Op where
   | unsubscribe (sub : Nat)                    -- removeSubscription (the eth_unsubscribe call is a separate `call`)
 deriving Repr
 
+/-- the pending table once a request still awaited for the same subscription is superseded -/
+def stalePending (s : St) (l : Nat) : List (Nat × Nat) :=
+  if Gen.RpcFacts.stalePendingDropped then
+    (match (getSub s l).pendingReq with | some old => s.pending.filter (·.1 != old) | none => s.pending)
+  else s.pending
+
+/-- allocate the next request id for subscription `l`, register it as pending and write the frame -/
+def allocSub (s : St) (l : Nat) : St :=
+  { s with counter := s.counter + 1,
+           subs := (l, { getSub s l with pendingReq := some (s.counter + 1), current := none, requested := true }) ::
+                     s.subs.filter (·.1 != l),
+           pending := stalePending s l ++ [(s.counter + 1, l)],
+           log := s.log ++ [.sentSub (s.counter + 1) l] }
+
+/-- nothing to send: the initial request of Subscribe() when a request has been issued already, or a subscription
+    that is no longer configured -/
+def skipSub (s : St) (l : Nat) (initial : Bool) : Bool :=
+  (initial && Gen.RpcFacts.initialSubscribeGuard && (getSub s l).requested) ||
+  (Gen.RpcFacts.unconfiguredSkipped && !s.configured.contains l)
+
 /-- `addInflightSub(s, initial)` followed by the send, when it says so -/
 def addInflightSub (s : St) (l : Nat) (initial : Bool) : St :=
-  let r := getSub s l
-  if initial && Gen.RpcFacts.initialSubscribeGuard && (r.pendingReq.isSome || r.current.isSome) then s
-  else if Gen.RpcFacts.unconfiguredSkipped && !s.configured.contains l then s
-  else
-    let id := s.counter + 1
-    -- a request still awaited for this subscription is superseded
-    let pend := if Gen.RpcFacts.stalePendingDropped then
-        (match r.pendingReq with | some old => s.pending.filter (·.1 != old) | none => s.pending)
-      else s.pending
-    let s1 := setSub s l { r with pendingReq := some id, current := none }
-    { s1 with counter := id, pending := pend ++ [(id, l)], log := s1.log ++ [.sentSub id l] }
+  if skipSub s l initial then s else allocSub s l
+
+/-- `popInflight` finds a pending subscription: the entry is removed, the waiter is consumed -/
+def popSub (s : St) (id l : Nat) : St :=
+  { s with pending := s.pending.filter (·.1 != id),
+           subs := (l, { getSub s l with pendingReq := none, waiter := false }) :: s.subs.filter (·.1 != l) }
+
+/-- `handleSubscriptionConfirm` after the pop: an error or an unusable result is reported to the first waiter;
+    a server id goes on to `addActiveSub` (the `activate` step) -/
+def afterPop (s1 : St) (l : Nat) (waiter : Bool) : Reply → St
+  | .result (some sid) => { s1 with confirming := some (l, sid, waiter) }
+  | _ => { s1 with log := s1.log ++ (if waiter then [.subConfirmed l false] else []) }
 
 def step (s : St) : Op → St
   | .call c =>
@@ -139,13 +161,7 @@ def step (s : St) : Op → St
   | .reply id r =>
     -- popInflight: pending subscriptions first, then calls
     match s.pending.find? (·.1 == id) with
-    | some (_, l) =>
-      let rec0 := getSub s l
-      let s1 := { setSub s l { rec0 with pendingReq := none, waiter := false } with pending := s.pending.filter (·.1 != id) }
-      match r with
-      | .error => { s1 with log := s1.log ++ (if rec0.waiter then [.subConfirmed l false] else []) }
-      | .result none => { s1 with log := s1.log ++ (if rec0.waiter then [.subConfirmed l false] else []) }
-      | .result (some sid) => { s1 with confirming := some (l, sid, rec0.waiter) }
+    | some (_, l) => afterPop (popSub s id l) l (getSub s l).waiter r
     | none =>
       match s.calls.find? (·.1 == id) with
       | some (_, c) =>
